@@ -30,7 +30,7 @@ BOUNDS = {
 
 
 def bin_values(N):
-    vals = [1, -1, 2, -2, 0.5, -0.5, 2.5, -2.5, N - 1, -(N - 1), N, -N, N + 3, -(N + 3), 0]
+    vals = [1, -1, 2, -2, 0.5, -0.5, 2.5, -2.5, N - 1, -(N - 1), N, -N, N + 3, -(N + 3), 0, 1e-7, -1e-7]
     out = []
     for v in vals:
         if v not in out:
@@ -59,6 +59,9 @@ def gen_cases(tier, seed):
             for ss in b["shapes"]:
                 for rate, unit in b["rates"]:
                     yield {"N": N, "dtype": dt, "ss": list(ss), "rate": rate, "unit": unit, "seed": seed}
+    for N in ((16384, 65536) if tier == "quick" else (16384, 65536, 99991)):
+        for dt in b["dtypes"]:
+            yield {"kind": "long", "N": N, "dtype": dt}
 
 
 def fillings(N, shape):
@@ -184,8 +187,49 @@ def check_call(res, case, z, Xof, q, bex, ss, sub, exact_arith=True):
         res.outcome((N, str(b)))
 
 
+def long_case(case, res):
+    """Long signals: the mixing phase must stay accurate at large sample indices (float64 FFT reference)."""
+    N = case["N"]
+    dtype = np.dtype(case["dtype"])
+    rng = np.random.default_rng(4)
+    x = (rng.uniform(-1, 1, (N, 2)) + 1j * rng.uniform(-1, 1, (N, 2))).astype(dtype)
+    z = factory.make("BasebandSignal", x, rate_name="1MHz", start_name="iso", fc=400 * u.MHz)
+    n = np.arange(N)[:, None]
+    eps = float(np.finfo(dtype).eps)
+    for b in (24001, -17777, 0.5, N // 3 + 0.25):
+        q = (b * 1e6 / N) * u.Hz
+        bex = F(float(q.value)) * N / 10 ** 6
+        out = pb.freq_shift(z, q)
+        res.transitions += 1
+        res.traces += 1
+        res.state(("long", N, str(dtype), b))
+        mixed = x.astype(complex) * np.exp(2j * np.pi * float(bex) * n / N)
+        Y = np.fft.fftshift(np.fft.fft(mixed, axis=0), axes=0)
+        k = math.ceil(bex) if bex > 0 else -math.ceil(-bex)
+        if k > 0:
+            Y[:k] = 0
+        elif k < 0:
+            Y[k:] = 0
+        ref = np.fft.ifft(np.fft.ifftshift(Y, axes=0), axis=0)
+        e = float(np.max(np.abs(np.asarray(out.data) - ref)))
+        tol = 256 * eps * float(np.max(np.abs(x)))
+        if abs(bex - round(bex)) < 1e-9 and bex.denominator != 1:
+            res.skipped["boundary bin open: shift within rounding of a whole bin (non-dyadic sample spacing)"] += 1
+            continue
+        if not res.ratio("long-signal err / (256 eps)", e, tol):
+            res.violation("freq_shift|long signal|values", f"N={N} {dtype} shift {b} bins: max |out - reference| = {e:.3g} (budget "
+                          f"{tol:.3g}); the mixing phase loses accuracy at large sample indices", case, {"b": b})
+        if out.dtype != dtype:
+            res.violation("freq_shift|long signal|dtype", f"{out.dtype}", case, {"b": b})
+    res.hits["long signal"] += 1
+    res.sample({"long": N, "dtype": str(dtype)}, 1)
+    return res
+
+
 def check_case(case):
     res = report.Result()
+    if case.get("kind") == "long":
+        return long_case(case, res)
     N, ss = case["N"], tuple(case["ss"])
     dtype = np.dtype(case["dtype"])
     rng = np.random.default_rng(2000 + case["seed"])
@@ -272,7 +316,7 @@ def main(argv=None):
     return report.run_check(
         PID, gen_cases=gen_cases, check_case=check_case, describe=describe,
         required_hits=["wrapped bins checked", "|shift| >= bandwidth (all zero)",
-                       "scalar shift on multi-element sample shape", "shift broadcast across sample axes", "alternating complex widths", "error contract"],
+                       "scalar shift on multi-element sample shape", "shift broadcast across sample axes", "alternating complex widths", "long signal", "error contract"],
         assumptions=["value budget 64*eps(dtype)*N*max|x|; the mixing phasor is computed in the signal's own precision",
                      "a shift within 1e-9 of a whole bin at a non-dyadic rate leaves the single boundary bin open"],
         argv=argv)
